@@ -242,9 +242,14 @@ def c01_compare(sess, cands, cut, rng):
     alt = {}
     for s, arr in cands.items():
         tail_n = max(len(arr) - cut + rng.choice([0, 0, 3, -2]), 1)
-        rows = engine.gen_candles(rng, tail_n, base=float(arr[cut - 1][2]) if cut > 0 else 100.0, vol=sess.get('vol', 4),
-                                  gap_prob=0.3)
-        if rng.random() < 0.5:
+        base = float(arr[cut - 1][2]) if cut > 0 else 100.0
+        back = sess.get('tail_back') and cut > 1
+        if back:
+            # the last shared minute opened with a gap: the replacement tail goes straight back across that gap (it starts
+            # from the close BEFORE the gap), so every price inside the gap is traded again right after t
+            base = float(arr[cut - 2][2])
+        rows = engine.gen_candles(rng, tail_n, base=base, vol=sess.get('vol', 4), gap_prob=0.3)
+        if not back and rng.random() < 0.5:
             # the replacement tail opens with a jump well beyond the last shared candle's range: an order resting inside
             # the jump must not be touched before t
             d = rng.choice([-1, 1]) * rng.choice([0.5, 1.0, 2.0, 4.0])
